@@ -11,9 +11,18 @@ Spec == Init /\ [][Next]_cid
 C == Cases[cid]
 \* verdict: accepted ONLY IF grammatical; an accepted definition yields exactly the declared fields followed by the
 \* reserved ones, a correct version stamp, and generated source of the expected shape; nothing was executed
-Contract == /\ (C.accepted => IF C.pos = "field" THEN RefFieldName(C.s) ELSE RefTypeName(C.s))
+Plain == C.pos \in {"field", "type"}
+\* a definition whose strings are another cut of an EARLIER, valid definition's characters (same identifier): it is
+\* judged on its own merits -- accepted only if every field name is grammatical and every type whitelisted, and then
+\* with exactly the fields it declares
+Resplit == C.pos = "resplit" =>
+             /\ (C.accepted => (C.types_ok /\ \A i \in DOMAIN C.names : RefFieldName(C.names[i])))
+             /\ (C.accepted => C.fields_exact)
+             /\ ~C.tripwire
+Contract == Plain =>
+            /\ (C.accepted => IF C.pos = "field" THEN RefFieldName(C.s) ELSE RefTypeName(C.s))
             /\ (C.accepted => (C.fields_exact /\ C.version_ok /\ C.source_shape_ok))
             /\ ~C.tripwire
 \* drift: grammatical names (that are not keywords / reserved) are accepted
-Design == ((IF C.pos = "field" THEN RefFieldName(C.s) ELSE RefTypeName(C.s)) /\ ~C.special) => C.accepted
+Design == (Plain /\ (IF C.pos = "field" THEN RefFieldName(C.s) ELSE RefTypeName(C.s)) /\ ~C.special) => C.accepted
 =============================================================================
